@@ -16,6 +16,17 @@ the parts, and that errors never count as a match, is `C11_attachment_cond` /
 `C11_attachment_block` below (against Spec/Attachment.lean); what an exec action
 receives on its standard input is `C11_exec_stdin` (against Spec/ExecStdin.lean).
 
+What is independent in `Spec/Mime.lean` and what is not (audit au2).  Independently written: the cutting of a body
+into parts (`Spec.cutParts` compares whole LINES, `Model.findBoundary` scans bytes), the pre-order listing and the depth
+limit, the choice among alternatives (`find?` twice against the one-pass `pickAlternative`), the transfer decoders
+(`Spec.b64`, `Spec.qp`: C16).  NOT independent - the same tests written twice, so the theorems say nothing about their
+adequacy: `Spec.boundaryParam` = `Model.parseBoundary` (prefix `multipart/` in LOWER case, the text after the FIRST `;`
+must be `boundary="` - quoted, lower case, first parameter), `Spec.isType` = `Model.isContentType` (case-sensitive
+prefix), and the dispatch of `Spec.decoded` = `Model.decodeBody` (`Content-Transfer-Encoding` compared with `base64` /
+`quoted-printable` case-sensitively and exactly).  RFC 2045 makes all of these case-insensitive and allows an unquoted
+boundary token in any parameter position; for such messages both sides agree on "no parts" / "not encoded" (examples
+after `C11_depth_limit`; observed on the real binary: `attachment` conditions silently do not match, exit 0).
+
 Hypothesis `Proofs.BoundaryOk` (an executable `Bool`, Proofs/Mime.lean): no multipart entity
 reached by the traversal announces a boundary containing a newline.  RFC 2046 boundaries never
 do; without it the statements are false (`C11_parts_unrestricted_false`,
@@ -47,6 +58,24 @@ theorem C11_body (m : Msg) (h : Proofs.BoundaryOk (Gen.mimeDepthLimit + 1) m = t
 
 /-- The supported nesting depth (regenerated from message.c). -/
 theorem C11_depth_limit : Gen.mimeDepthLimit = 4 := by decide
+
+/-- (audit au2) The reading of the Content-Type / Content-Transfer-Encoding values that specification and model SHARE
+(see the file header): an unquoted boundary, `Multipart/Mixed`, and a boundary that is not the first parameter are
+"not multipart" - `some []`, no parts and no error, on both sides - and `BASE64` is "not encoded". -/
+example :
+    Spec.boundaryParam (ofString "multipart/mixed; boundary=\"b\"") = .some (ofString "b") ∧
+    Spec.boundaryParam (ofString "multipart/mixed; boundary=b") = .none ∧
+    Spec.boundaryParam (ofString "Multipart/Mixed; boundary=\"b\"") = .none ∧
+    Spec.boundaryParam (ofString "multipart/mixed; charset=utf-8; boundary=\"b\"") = .none ∧
+    Spec.boundaryParam (ofString "multipart/mixed; Boundary=\"b\"") = .none ∧
+    getAttachments (parseHeaders (ofString "Content-Type: multipart/mixed; boundary=b\n\n--b\n\nhello\n--b--\n")) = some [] ∧
+    Spec.parts entity (Gen.mimeDepthLimit + 1)
+      (parseHeaders (ofString "Content-Type: multipart/mixed; boundary=b\n\n--b\n\nhello\n--b--\n")) = some [] ∧
+    getBody (parseHeaders (ofString "Content-Transfer-Encoding: BASE64\n\naGVsbG8=\n")) = some (ofString "aGVsbG8=\n") ∧
+    Spec.decodedBody entity Gen.mimeDepthLimit
+      (parseHeaders (ofString "Content-Transfer-Encoding: BASE64\n\naGVsbG8=\n")) = some (ofString "aGVsbG8=\n") ∧
+    getBody (parseHeaders (ofString "Content-Transfer-Encoding: base64\n\naGVsbG8=\n")) = some (ofString "hello") := by
+  decide +kernel
 
 /-! ## The statements without the hypothesis, and why they fail -/
 
